@@ -8,6 +8,7 @@ import (
 	"strings"
 	"time"
 
+	"github.com/tdakkota/docker-logql/internal/dockerlog"
 	"github.com/tdakkota/docker-logql/internal/logql/logqlengine"
 )
 
@@ -137,6 +138,8 @@ type logqIn struct {
 	// Queries: optional list of alternative pipelines evaluated on the same data (C19 families); when empty, Stages is used.
 	Queries [][]stageIn `json:"queries"`
 	Fam     string      `json:"fam"` // C19: "fg" | "pred" (which relations the family of queries must satisfy)
+	// Store "docker": the records are the frames of two fake containers (dealt out by turns) read through the Docker storage
+	Store string `json:"store,omitempty"`
 	Caps    []CapsIn    `json:"caps"`
 	Limit   int         `json:"limit"`
 	// Unsorted: the storage returns the records in the order given here, not in time order (only with a non-positive limit)
@@ -351,7 +354,18 @@ func (famLogq) Exec(scn int, raw json.RawMessage, t *Trace, opt map[string]strin
 				c.Line = []string{}
 			}
 			t.Ev(scn, "Run", F{"run": run, "q": qi + 1, "caps": c, "txt": q})
-			store := &MemStore{t: t, scn: scn, recs: in.Recs, caps: c, unsorted: in.Unsorted}
+			var store logqlengine.Querier = &MemStore{t: t, scn: scn, recs: in.Recs, caps: c, unsorted: in.Unsorted}
+			if in.Store == "docker" {
+				ctrs := []FakeCtr{simpleCtr("id1", "n1", []Frame{}), simpleCtr("id2", "n2", []Frame{})}
+				for i, rec := range in.Recs {
+					ctrs[i%2].Frames = append(ctrs[i%2].Frames, Frame{Typ: 1 + i%2, TS: []int{rec.TS[0], rec.TS[1]}, Msg: rec.Line})
+				}
+				dq, err := dockerlog.NewQuerier(newFakeDocker(nil, scn, ctrs))
+				if err != nil {
+					return err
+				}
+				store = dq
+			}
 			eng := logqlengine.NewEngine(store, logqlengine.Options{})
 			p := logqlengine.EvalParams{Start: tsOf(unixOf(in.Start)), End: tsOf(unixOf(in.End)), Limit: in.Limit}
 			r := evalWithWatchdog(eng, q, p, 20*time.Second)
@@ -1211,6 +1225,27 @@ func genAlgebra(r *rand.Rand) logqIn {
 			in.Caps = []CapsIn{{Label: allOps, Line: allOps}}
 			if g.T == "line" && (g.Op == "neq" || g.Op == "nre") {
 				g.Op = map[string]string{"neq": "eq", "nre": "re"}[g.Op] // "| drop app != x" would be a drop matcher
+			}
+		}
+		if r.Intn(6) == 0 {
+			// the same family over the Docker storage (two containers, the records dealt out by turns): the needle is looked for in
+			// the MESSAGE - not in what else a frame carries (its timestamp text: digits, T, Z, colons, dashes)
+			in.Store = "docker"
+			for i := range in.Recs {
+				in.Recs[i].TS[1] = []int{404000003, 170000000, 5, 999999999, 0, 123456789}[r.Intn(6)]
+				if r.Intn(3) == 0 {
+					in.Recs[i].Line, in.Recs[i].Doc = B(pick(r, []string{"GET /x 404", "ok", "T-1000", "a:b", "2023", "Z", "17 00"})), [][2][]int{}
+				}
+			}
+			needle := func() stageIn {
+				return stageIn{T: "line", Op: []string{"eq", "neq"}[r.Intn(2)], Val: B(pick(r, []string{"404", "Z", "T", ":", "-", "2023", "00", "17", "3Z", ".4", "a", "ok"})), Re: eps}
+			}
+			f = needle()
+			if r.Intn(2) == 0 {
+				g = needle()
+			}
+			if k := len(base); k > 0 && (base[k-1].T == "drop" || base[k-1].T == "keep") {
+				base = append(base, stageIn{T: "logfmt"})
 			}
 		}
 		in.Fam = "fg"
